@@ -306,7 +306,7 @@ def generate(rng, tier):
         cases.append(mk_case("table", gk, fs))
         for inp in inputs:
             cases.append(mk_case("run", gk, fs, inp))
-    n_lists = 260 if tier == "quick" else 4500
+    n_lists = 260 if tier == "quick" else 3000
     for _ in range(n_lists):
         gk = rng.choice(GKEYS)
         fs = gen_fields(rng)
